@@ -199,6 +199,31 @@ UNITS += [
          ),
 ]
 
+UNITS += [
+    # TreeArchiver::finalize: the snapshot's root is the hash of the serialised top-level tree, that tree is stored (or known),
+    # and the tree packer has been finalized when Ok is returned
+    Unit(name="ta_finalize", file=TA, anchor="pub(crate) fn finalize(\n        mut self,", ret_name="r", **WTA,
+         functions=["archiver::tree_archiver::TreeArchiver::finalize"],
+         rewrites=[Rw("        mut self,", "        self,", sig=True, why="`mut self` (unsupported by Verus) -> `self` + rebinding `let mut this = self;`"),
+                   Rw("self.", "this.", count=None, why="rebinding of `mut self`"),
+                   Rw(r"parent_tree\.map_or\(ParentResult::NotFound, ParentResult::Matched\)", "(match parent_tree { Some(vp) => ParentResult::Matched(vp), None => ParentResult::NotFound })", regex=True,
+                      why="Option::map_or(default, constructor) -> match (definition)"),
+                   Rw("&PathBuf::new()", "&PathR::vnew()", why="empty path -> opaque path stub"),
+                   Rw("this.tree_packer.finalize()?", "this.tree_packer.vfinalize()?", why="Packer::finalize -> stub: Ok = every tree pack written and indexed (C03)"),
+                   Rw("BlobType::Tree", "BlobTypeT::Tree", why="blob type -> stub enum"),
+         ],
+         hints=[("before", "let parent = ", "        let mut this = self;")],
+         contract="""
+    requires counters_have_room(self.summary, TREE_SER(self.tree.nodes@).len() as int),
+    ensures
+        /*@snapshot_root_is_hash_of_the_top_level_tree*/ r matches Ok(x) ==> x.0 == tree_id_of(self.tree.nodes@),
+        /*@root_tree_is_stored_and_the_packer_flushed*/ r matches Ok(x) ==> (parent_tree == Some(x.0) || self.index.trees().contains(x.0)
+            || TREE_PACKER_FINALIZED(self.tree_packer.added@.push((TREE_SER(self.tree.nodes@), x.0)))),
+        // whatever was handed to the tree packer during the run is flushed when Ok is returned
+        /*@tree_packer_is_finalized_before_success*/ r is Ok ==> TREE_PACKER_FINALIZED(self.tree_packer.added@) || TREE_PACKER_FINALIZED(self.tree_packer.added@.push((TREE_SER(self.tree.nodes@), tree_id_of(self.tree.nodes@)))),
+"""),
+]
+
 SATELLITES = [("C02", ["blob_constants", "BlobLocation", "BlobLocations", "from_blob_location", "can_coalesce", "append", "coalesce", "PackToDo", "RepackReason", "PackInfo", "PrunePack", "CopyPackBlobs", "RestorePackInfo", "restore_packinfo_coalesce", "FileLocation", "restore_read_of_blob", "restore_needed_pack"]),
               # "restore to disk" is one of the ways of reading a snapshot back: the restore units of C14's spec (node stream, plan,
               # merge walk with the destination, write task) are verified as part of this property's check as well
@@ -213,7 +238,7 @@ SATELLITES = [("C02", ["blob_constants", "BlobLocation", "BlobLocations", "from_
               ("C17", "*")]
 
 META = {"not_covered": [
-    "the iterator chain of FileArchiver::backup_reader (its per-chunk closure is a unit of C07: backup_chunk), Archiver::archive (threads/channels), TreeArchiver::finalize (`mut self`)",
+    "the iterator chain of FileArchiver::backup_reader (its per-chunk closure is a unit of C07: backup_chunk), Archiver::archive (threads/channels; its tail is a unit of C03)",
     "Tree::serialize (serde_json) and the node metadata / name escaping (strings, serde): uninterpreted",
     "the parallel path of dump (pariter: ordered parallel map, files with two or more blobs), metadata application; the composition of the kernels into backup -> restore",
     "summary counters assumed not to wrap (u64 sums of one run)",
